@@ -33,6 +33,8 @@ VList(x)  == V("list", 0, "", FALSE, x)
 Void      == V("void", 0, "", FALSE, <<>>)
 Undef     == V("undef", 0, "", FALSE, <<>>)
 IsUndef(v) == v.t = "undef"
+\* a local declared with a type and no initialiser: holds no value yet; s = the declared type as spelled
+Unset(ty) == V("unset", 0, ty, FALSE, <<>>)
 
 \* numeric values of the verification class library's enumerators (mockqt/gen_mock.py numbering rule)
 EnumVal == [ModeA |-> 0, ModeB |-> 1, ModeC |-> 2, OptX |-> 1, OptY |-> 2, OptZ |-> 4]
@@ -188,7 +190,7 @@ Eval(e, heap, loc) ==
     [] e.k = "null" -> VPtr("null")
     [] e.k = "enum" -> VEnum(e.e, EnumVal[e.v])
     [] e.k = "obj"  -> VPtr(e.n)
-    [] e.k = "lv"   -> Lookup(loc, e.n)
+    [] e.k = "lv"   -> LET v == Lookup(loc, e.n) IN IF v.t = "unset" THEN Undef ELSE v      \* read of a never-assigned variable
     [] e.k = "rd"   -> LET o == Eval(e.o, heap, loc) IN
                        IF IsUndef(o) \/ o.t # "ptr" \/ o.s = "null" THEN Undef ELSE heap[o.s][e.p]
     [] e.k = "un"   -> UnVal(e.op, Eval(e.a, heap, loc))
@@ -222,6 +224,13 @@ InsertAt(seq, pos, x) == SubSeq(seq, 1, pos) \o <<x>> \o SubSeq(seq, pos + 1, Le
 
 Eff(kind, o, n, args) == [e |-> kind, o |-> o, n |-> n, args |-> args]
 
+\* names declared directly in a statement list, as never-assigned variables
+DeclEntries(ss) == LET idx == SelectSeq([i \in 1..Len(ss) |-> i], LAMBDA i : ss[i].k \in {"let", "const", "lett", "letc"}) IN
+                   [j \in 1..Len(idx) |-> <<ss[idx[j]].n, Unset(IF ss[idx[j]].k = "lett" THEN ss[idx[j]].ty ELSE "")>>]
+RECURSIVE HoistUpTo(_, _)
+HoistUpTo(bodies, k) == IF k <= 0 THEN <<>> ELSE HoistUpTo(bodies, k - 1) \o DeclEntries(bodies[k])
+\* a value stored in a variable of declared type ty
+Adapt(ty, v) == IF ty = "uint" /\ v.t = "int" THEN MkNum("uint", v.i) ELSE v
 RECURSIVE ExS(_, _), ExSeq(_, _, _, _), ExClauses(_, _, _, _, _), FirstHit(_, _, _, _)
 \* index of the first case whose label equals v (0 if none); labels are evaluated top-down
 FirstHit(cases, i, v, st) ==
@@ -252,9 +261,17 @@ ExS(x, st) ==
                        LET v == Eval(x.e, st.heap, st.loc) IN
                        IF IsUndef(v) THEN Comp("undef", Empty, st, "decl")
                        ELSE Comp("normal", Empty, [st EXCEPT !.loc = Append(@, <<x.n, v>>)], "decl")
+    [] x.k = "lett" -> \* let n: ty [= e]: the declared type rules (an integer literal stored in a uint variable is a uint)
+                       IF x.e.k = "none" THEN Comp("normal", Empty, [st EXCEPT !.loc = Append(@, <<x.n, Unset(x.ty)>>)], "decl")
+                       ELSE LET v == Adapt(x.ty, Eval(x.e, st.heap, st.loc)) IN
+                            IF IsUndef(v) THEN Comp("undef", Empty, st, "decl")
+                            ELSE Comp("normal", Empty, [st EXCEPT !.loc = Append(@, <<x.n, v>>)], "decl")
     [] x.k = "asg"  -> LET v == Eval(x.e, st.heap, st.loc)  i == IndexOf(st.loc, x.n, Len(st.loc)) IN
                        IF IsUndef(v) \/ i = 0 THEN Comp("undef", Empty, st, "expr")
-                       ELSE Comp("normal", Void, [st EXCEPT !.loc[i] = <<x.n, v>>], "expr")
+                       ELSE LET cur == st.loc[i][2]
+                                w == Adapt(IF cur.t = "unset" THEN cur.s ELSE cur.t, v) IN
+                            IF IsUndef(w) THEN Comp("undef", Empty, st, "expr")
+                            ELSE Comp("normal", Void, [st EXCEPT !.loc[i] = <<x.n, w>>], "expr")
     [] x.k = "asgsub" -> \* element write on a local list (value semantics: the list held by the local is replaced)
                        LET v == Eval(x.e, st.heap, st.loc)  ix == Eval(x.i, st.heap, st.loc)  i == IndexOf(st.loc, x.n, Len(st.loc)) IN
                        IF IsUndef(v) \/ IsUndef(ix) \/ i = 0 THEN Comp("undef", Empty, st, "expr")
@@ -296,9 +313,13 @@ ExS(x, st) ==
              BIdx(i) == IF x.def.k # "none" /\ i > x.def.pos THEN i + 1 ELSE i
              hit == IF IsUndef(v) THEN -1 ELSE FirstHit(x.cases, 1, v, st)
              start == IF hit > 0 THEN BIdx(hit) ELSE IF x.def.k # "none" THEN x.def.pos + 1 ELSE Len(bodies) + 1
+             \* the clauses of a switch form ONE block scope: a declaration written directly in a clause is visible in the later clauses
+             \* (never assigned when control enters below it) and ends with the switch
+             st1 == [st EXCEPT !.loc = @ \o HoistUpTo(bodies, start - 1)]
          IN IF hit < 0 THEN Comp("undef", Empty, st, "expr")
-            ELSE LET c == ExClauses(bodies, start, st, Void, "none") IN
-                 IF c.ty = "break" THEN [c EXCEPT !.ty = "normal"] ELSE c
+            ELSE LET c == ExClauses(bodies, start, st1, Void, "none")
+                     d == [c EXCEPT !.st.loc = SubSeq(c.st.loc, 1, Len(st.loc))] IN
+                 IF d.ty = "break" THEN [d EXCEPT !.ty = "normal"] ELSE d
 
 St0(heap, loc) == [heap |-> heap, loc |-> loc, eff |-> <<>>]
 \* result of running a body: [ok, val, eff, heap]
